@@ -109,6 +109,103 @@ class DecHooks(QHooks):
             self.fail(E, 'decoded-stream-equals-reference', None, 'at the terminator: %s' % self.cmp.describe(E))
 
 
+class HopHooks(QHooks):
+    """blast() over byte strings drawn from the letters of received/delivered (both cases), CR, LF, "." and another byte:
+    *hops against the documented count (header lines starting, in any case, with "received" or "delivered"; the header
+    ends at the first empty line)"""
+    ALPHA = sorted(set(ord(c) for c in 'receivdlRECEIVDL') | {13, 10, 46, ord('x')})
+    CAP = 2
+
+    def __init__(self):
+        self.bad = None
+        self.reads = 0
+        self.returns = 0
+        self.maxhops = 0
+
+    def tracked_global(self, path):
+        return path.startswith('$') or path == 'HOPS'
+
+    def precise_arith(self, path):
+        return True
+
+    def ghost(self, E):
+        return g1(E, '$gh', (1, '', 0))      # (in header, line prefix (<= 9 bytes, lower case), hops)
+
+    def prim_substdio_get(self, E, x, args):
+        self.reads += 1
+        tgt = args[1]
+        chp = None
+        if tgt is not TOP and len(tgt) == 1:
+            (a,) = tgt
+            if isinstance(a, tuple) and a[0] == '&':
+                chp = a[1]
+        if chp is None:
+            raise AnalysisBroken('blast(): substdio_get target is not an object address')
+        inh, pre, hops = self.ghost(E)
+        got = g1(E, 'HOPS')
+        if got != hops:
+            if self.bad is None:
+                self.bad = ('after this input the hop counter is %s, documented %s (header lines beginning with received/delivered, header ends at the first empty line)' % (got, hops), E.trace.list())
+            E.kill()
+            return 'noreturn'
+        if hops >= self.CAP:
+            return 'noreturn'           # exploration bound: two counted lines
+        outs = []
+        for b in self.ALPHA:
+            i2, p2, h2 = inh, pre, hops
+            if inh:
+                if len(p2) < 9:
+                    p2 = p2 + chr(b).lower()
+                    if p2 == 'received' or p2 == 'delivered':
+                        h2 += 1
+                    if p2 == '\r\n':
+                        i2 = 0
+                if b == 10:
+                    p2 = ''
+                # prefixes that can no longer match anything are equivalent: normalise (keeps the state space small)
+                if p2 and not ('received'.startswith(p2) or 'delivered'.startswith(p2) or '\r\n'.startswith(p2)) and len(p2) < 9:
+                    p2 = p2[:0] + '#' * len(p2)
+            if not i2:
+                p2 = ''
+            outs.append(Outcome(ret=fs(1), sets={chp: fs(b), '$gh': fs((i2, p2, h2))}, log='input byte %r' % chr(b)))
+        return outs
+
+    def prim_put(self, E, x, args):
+        return [Outcome(ret=TOP)]
+
+    def prim_straynewline(self, E, x, args):
+        return 'noreturn'
+
+    def on_return(self, E, fn, val):
+        if fn.name != 'blast':
+            return
+        self.returns += 1
+        inh, pre, hops = self.ghost(E)
+        got = g1(E, 'HOPS')
+        self.maxhops = max(self.maxhops, hops)
+        if got != hops and self.bad is None:
+            self.bad = ('at the end of the message the hop counter is %s, documented %s' % (got, hops), E.trace.list())
+
+
+def g1(E, k, d=None):
+    v = E.get(k)
+    return next(iter(v)) if v is not TOP and v is not None and len(v) == 1 else d
+
+
+def hop_sites(db, rep):
+    prog = db.program('qmail-smtpd')
+    blast = prog.fn('blast', 'qmail-smtpd.c')
+    H = HopHooks()
+    eng = Engine(db, prog, H, max_states=2000000)
+    fid = eng.frame_id(blast)
+    eng.run(blast, {'%s::%s' % (fid, blast.params[0]): fs(('&', 'HOPS'))})
+    rep.count_states(eng.states, eng.transitions)
+    if H.bad is None and (H.reads < 100 or H.returns < 1):
+        raise AnalysisBroken('blast(): hop exploration did not run (%d reads, %d returns)' % (H.reads, H.returns))
+    return {'hop-count=header-lines-starting-with-received/delivered': (H.bad is None, 'qmail-smtpd.c:blast', H.bad[0] if H.bad else '%d abstract states' % eng.states, H.bad[1] if H.bad else [])}, eng.states
+
+
+
 def run(ctx):
     db, rep = ctx.db, ctx.report
     prog = db.program('qmail-smtpd')
@@ -167,6 +264,17 @@ def run(ctx):
                 if base in ('L:flaginheader', 'L:pos', 'L:flagmaybex', 'L:flagmaybey', 'L:flagmaybez', 'P:hops'):
                     bad.append(base)
         r2.check(not bad, '%s-independent-of-hop-vars' % c.callee, c.where, 'guarded by %s' % sorted(set(bad)))
+
+    # ---- nothing but the documented limits refuses a well-framed message
+    r3 = rep.rule('C05.3-no-false-refusal', 'R-TRANSDUCER', 'a correctly framed message is stored unless it reaches the documented limits: the hop counter counts exactly the header lines beginning with received/delivered (header ends at the first empty line); the size countdown refuses from stored byte databytes+1')
+    hs, nst = hop_sites(db, rep)
+    for inst, v in sorted(hs.items()):
+        r3.check(v[0], inst, v[1], v[2], v[3])
+    from rules import C07
+    for inst, v in sorted(C07.smtpd_size_sites(db, rep).items()):
+        r3.check(v[0], inst, v[1], v[2], v[3])
+    r3.note(hop_states=nst)
+    r3.expect_min(2)
 
     # ---- same stream afterwards
     r4 = rep.rule('C05.4-same-stream', 'R-EFFECT', 'message bytes and commands are read through one substdio object on descriptor 0, so bytes after the terminator are the next command whatever the chunking')
